@@ -25,6 +25,8 @@ var htmlPayloads = []string{
 	` spaced out `, `!"#$%&'()*+,-./:;<=>?@[\]^_{|}~`, `héllo/wörld`, `日本語`, `\"; alert(1); //`, `</a><a href="javascript:x">`, `" style="x:expression(1)`, `]]>`, `<svg/onload=alert(1)>`,
 	`vendor/github.com/x/y`, `@v1.2.3`, `#fragment?query=1&x=<y>`, `..%2f..%2f`, "tab\there", `file:///etc/passwd`, `//evil.example/`, `\\evil\share`, "line\nbreak",
 	// the module cache's case encoding ("!x" for "X") and its degenerate forms
+	// fragments of method symbols: "(*T).M" cut short or turned around
+	`(`, `(*T`, `(<b>`, `).`, `(*T).`, `)`, `.(`, `(*`,
 	`!burnt!sushi`, `trailing!`, `dou!!ble`, `!`, `%21`, `@`, `@@v1`, `v2@`,
 }
 
